@@ -463,7 +463,7 @@ func init() {
 			if tier == "thorough" {
 				burst = 1500
 			}
-			us = append(us, c06Burst(burst), c06RefusalUnderStoreFault(), c06RespelledReplays())
+			us = append(us, c06Burst(burst), c06RefusalUnderStoreFault(), c06RespelledReplays(), c13BinaryRestart())
 			return us
 		},
 	})
